@@ -147,3 +147,62 @@ pub fn replay(args: &[String]) {
     rep.notes.push(format!("observe_exact={} observe_total={}", observe_exact, observe_total));
     rep.finish(&out);
 }
+
+/// Element with an identity (reported on every read) and a separate value (what `==` compares), for
+/// comparing two iterators: equal-length windows at different cursors may be equal or not.
+struct Tv { id: u32, val: u32 }
+impl PartialEq for Tv { fn eq(&self, o: &Self) -> bool { log_read(self.id); log_read(o.id); self.val == o.val } }
+
+/// C18 replay of spec/VekIterPair.tla: each case is a pair of cursor states <<start, end>> of two
+/// iterators over vectors of dimension n; both are brought to their state with front / back pulls on
+/// every vector type of that dimension, then compared in both orders with == and !=.  The result must
+/// be the specification's `EqExpected` and every element read must be live in its iterator.
+pub fn replay_pair(args: &[String]) {
+    let cases_path = arg(args, "--cases").expect("--cases");
+    let out = arg(args, "--out").expect("--out");
+    silence_panics();
+    let mut rep = Report::new();
+    let mut cases: Vec<(usize, [usize; 2], [usize; 2], bool)> = vec![];
+    let mut seen = std::collections::HashSet::new();
+    read_tlc_json_lines(&cases_path, |v| {
+        let g = |k: &str, i: usize| v[k][i].as_u64().unwrap() as usize;
+        let c = (v["n"].as_u64().unwrap() as usize, [g("a", 0), g("a", 1)], [g("b", 0), g("b", 1)], v["eq"].as_i64().unwrap() == 1);
+        if seen.insert((c.0, c.1, c.2)) { cases.push(c); }
+    });
+    macro_rules! one {
+        ($V:ident, $n:expr, $name:expr) => {{
+            for (n, a, b, eq) in cases.iter() {
+                if *n != $n { continue; }
+                rep.tables += 1;
+                let mk = |base: u32, c: &[usize; 2]| {
+                    let arr: [Tv; $n] = std::array::from_fn(|i| Tv { id: base + i as u32 + 1, val: ((i + 1) % 2) as u32 });
+                    let mut it = $V::<Tv>::from(arr).into_iter();
+                    for _ in 0..c[0] { it.next(); }
+                    for _ in 0..($n - c[1]) { it.next_back(); }
+                    it
+                };
+                let (ia, ib) = (mk(0, a), mk(100, b));
+                let live: Vec<u32> = (a[0] + 1..=a[1]).map(|i| i as u32).chain((b[0] + 1..=b[1]).map(|i| 100 + i as u32)).collect();
+                const FORMS: [&str; 4] = ["a==b", "b==a", "a!=b", "b!=a"];
+                for form in 0..4 {
+                    log_clear();
+                    let got = guarded(|| match form { 0 => ia == ib, 1 => ib == ia, 2 => !(ia != ib), _ => !(ib != ia) });
+                    let rd = reads(&log_take());
+                    rep.evals += 1;
+                    let stray = rd.iter().find(|i| !live.contains(i));
+                    if got != Some(*eq) || stray.is_some() {
+                        let what = if let Some(x) = stray { format!("comparison read moved-out element {} (live: {:?})", x, live) }
+                                   else { format!("comparison returned {:?}, the remaining sequences are {}", got, if *eq { "equal" } else { "different" }) };
+                        rep.mismatch(json!({"ty": $name, "n": $n, "a": a, "b": b, "form": FORMS[form], "what": what,
+                            "key": if stray.is_some() { "iter/compare-reads-moved" } else { "iter/compare-result" }}));
+                        break;
+                    }
+                }
+                if rep.samples.len() < 2 && a != b && a[1] - a[0] == b[1] - b[0] && a[1] > a[0] + 1 { rep.sample(json!({"ty": $name, "a": a, "b": b, "eq": eq})); }
+            }
+        }};
+    }
+    for_all_vecs!(one);
+    rep.nontrivial = cases.iter().filter(|c| c.1 != c.2 && c.1[1] - c.1[0] == c.2[1] - c.2[0]).count() as u64;
+    rep.finish(&out);
+}
